@@ -292,11 +292,38 @@ def run(tier, seed, model_ok):
     vio = judge_device(cases, vio)
     n_core, dis2, vio2 = core_cases(model_ok)
     dis += dis2; vio += vio2
+    # fixed programs that must FAIL: an operand outside its field written behind a top-level `~` / `-` / `!` (the range
+    # check looks at the value, not at the shape of the expression), and a wrong-class register reached through a second
+    # `.def` of a live alias (which is itself refused)
+    import vlib
+    mf = []
+    for m in ('andi', 'ori', 'sbr', 'cbr', 'ldi', 'subi', 'cpi'):
+        for t in ('~0x1234', '~(0x0180)', '-(300)', '~(~256)', '~FLAGS', '-(-256)', '~(1 << 9)'):
+            mf.append('.equ FLAGS = 0x0180\n %s r16, %s' % (m, t))
+    for m, t in (('adiw', 'r24, ~(-65)'), ('in', 'r16, ~(-65)'), ('sbi', '~(-33), 1'), ('sbrc', 'r1, ~(-9)'), ('ldd', 'r0, Y+~(-65)')):
+        mf.append(' %s %s' % (m, t))
+    for bad, use in (('r3', 'ldi tmp, 1'), ('r17', 'movw tmp, r0'), ('r20', 'adiw tmp, 1'), ('r5', 'muls tmp, r16'), ('r24', 'fmul tmp, r16')):
+        mf.append('.def tmp = r16\n.def tmp = %s\n %s' % (bad, use))
+        mf.append('.def tmp = %s\n %s' % (bad, use))
+    ok_ctrl = [' andi r16, ~0x0f', ' ori r17, ~(-256)', ' ldi r18, -(128)', '.def tmp = r16\n.undef tmp\n.def tmp = r17\n ldi tmp, 1']
+    trip = [('mf%d' % i, 'B', vlib.hx(t)) for i, t in enumerate(mf)] + [('ok%d' % i, 'B', vlib.hx(t)) for i, t in enumerate(ok_ctrl)]
+    r_impl = vlib.run_impl(trip)
+    if model_ok:
+        r_model = vlib.run_model(trip, vlib.cwd_prelude())
+        for k, _, h in trip:
+            if r_impl.get(k) != r_model.get(k, 'MISSING'):
+                dis.append({'source': vlib.unhx(h).decode(), 'impl': r_impl.get(k, '')[:120], 'model': r_model.get(k, 'MISSING')[:120]})
+    for i, t in enumerate(mf):
+        if not r_impl.get('mf%d' % i, '').startswith('ERR'):
+            vio.append({'what': 'operands the ISA cannot encode for the mnemonic are accepted', 'source': t, 'impl': r_impl.get('mf%d' % i, '')[:120], 'expected': 'ERR', 'key': 'fixed-must-fail'})
+    for i, t in enumerate(ok_ctrl):
+        if not r_impl.get('ok%d' % i, '').startswith('OK'):
+            vio.append({'what': 'generator error: control program does not build', 'source': t, 'impl': r_impl.get('ok%d' % i, '')[:120], 'expected': 'OK', 'key': 'generator'})
     import subprocess
     dist = Counter(c.mn for c in cases)
     illegal = None
     return {
-        'evaluations': len(cases) + n_core, 'distinct_nontrivial': len({c.src for c in cases}),
+        'evaluations': len(cases) + n_core + len(trip), 'distinct_nontrivial': len({c.src for c in cases}),
         'rule': 'every mnemonic x all registers 0..31 in each register position x every value in [lo-130, hi+130] of each value field (plus the byte-wrap zone 250..330, i64 extremes, and for every value field the values that come into range only after truncation to 8, 16 or 32 bits: v ± 2^w, v + 2·2^w), all index forms incl. X/Y/Z displacements in the window; every mnemonic x every list of 0..3 operands over the kinds register/value/index (kind and count confusions), default core and ATtiny20; the register/value families again with every register written through a .def alias (all 32 in each position) and values through .equ symbols / compound expressions at the range ends; the value families once more with the value computed (a .set symbol captured from pc behind code; a macro argument whose grouping matters: a-(b-c), x/(y/z), x>>(y>>z)); every device of the table x ld/ldd/st/std with Y/Z displacements in and beyond the field (cores without displacement addressing must refuse them); distinct = distinct source texts',
         'samples': [cases[0].src, cases[len(cases) // 3].src, cases[-1].src],
         'exhaustive': True,
